@@ -204,7 +204,7 @@ def bounds(model, ren=None):
     return out
 
 
-def compare(m, m2, ren, extra, eq, tol=None):
+def compare(m, m2, ren, extra, eq, tol=None, outputs_only=False):
     """returns list of (what, verdict, info)."""
     sympy, semeq = _W['sympy'], _W['semeq']
     d1, d2 = model_function(m), model_function(m2)
@@ -230,9 +230,9 @@ def compare(m, m2, ren, extra, eq, tol=None):
             amap = {a: b for a, b in mapping.items() if a != b}
     full = dict(rmap)
     full.update(amap)
-    common = [s for s in d1.env if s in d2.env]
+    common = [s for s in d1.env if s in d2.env and (not outputs_only or str(s) in dvs1)]
     for s in d1.env:
-        if str(s) in dvs1 and s not in common:
+        if str(s) in dvs1 and s not in d2.env:
             res.append((f'value[{s}]', 'violated', dict(what='observation variable no longer defined')))
     for s in common:
         a = d1.env[s].xreplace(full)
